@@ -127,8 +127,10 @@ func RunE2(t *testing.T, p *Program, withLog bool) *RunResult {
 }
 
 func (e *e2) violate(tags []string, oracle, format string, args ...any) {
+	v := &Violation{Tags: uniq(tags), Oracle: oracle, Msg: fmt.Sprintf(format, args...)}
+	e.res.All = append(e.res.All, v)
 	if e.res.Violation == nil {
-		e.res.Violation = &Violation{Tags: uniq(tags), Oracle: oracle, Msg: fmt.Sprintf(format, args...)}
+		e.res.Violation = v
 	}
 }
 
@@ -547,6 +549,8 @@ func (e *e2) judge() {
 		e.judgeTermination(hist)
 	case "openclose":
 		e.judgeOpenClose(hist)
+	case "insert-race":
+		e.judgeInsertRace(hist)
 	}
 }
 
@@ -899,5 +903,35 @@ func (e *e2) teardownOracles() {
 			e.violate([]string{"C16"}, "feed.callback-after-done", "feed %s invoked its callback %d time(s) after closing its done channel", id, f.AfterDone)
 			return
 		}
+	}
+}
+
+// C06 (concurrent): the key had no body and the clients only use insert-style entry points, so at
+// most one of them may report success, and the final document is that one's.
+func (e *e2) judgeInsertRace(hist []*HistEntry) {
+	var winners []*HistEntry
+	for _, h := range hist {
+		if h.Task < 0 || h.Res.Err != "" {
+			continue
+		}
+		if (h.Op.Kind == "Add" || h.Op.Kind == "AddRaw") && !h.Res.Added {
+			continue
+		}
+		winners = append(winners, h)
+	}
+	if len(winners) > 1 {
+		e.violate([]string{"C06"}, "insert.double-success", "the key %q had no body and %d insert-only writes raced: %d of them report success (an insert overwrote a live document):\n    %s\n    %s", winners[0].Op.Key, len(e.p.Tasks), len(winners), winners[0], winners[1])
+		return
+	}
+	if len(winners) == 1 && winners[0].Op.Body != nil {
+		for _, h := range hist {
+			if h.Task == -1 && h.Op.Kind == "GetRaw" {
+				if h.Res.Err != "" || string(h.Res.Body) != *winners[0].Op.Body {
+					e.violate([]string{"C06", "C01"}, "insert.final", "the only successful insert wrote %q but the key finally reads %q (err=%s)", *winners[0].Op.Body, h.Res.Body, h.Res.Err)
+					return
+				}
+			}
+		}
+		e.probe("insertrace.one-winner")
 	}
 }
